@@ -46,39 +46,33 @@ func setPropsFromMapRecursive(val reflect.Value, updates map[string]any) (staged
 			field := typ.Field(i)
 			fieldVal := val.Field(i)
 
-			jsonTag, _ := field.Tag.Lookup("json")
-			if jsonTag != key {
+			jsonTag, tagged := field.Tag.Lookup("json")
+			if !tagged || jsonTag != key {
 				continue
 			}
 
 			found = true
-			if fieldVal.Kind() == reflect.Struct {
-				// If the value is a map, it's a nested update
-				if nestedUpdates, ok := value.(map[string]any); ok {
+			if fieldVal.Kind() == reflect.Struct && fieldVal.CanAddr() {
+				// A ConfigProp takes the value whatever its shape (a wrong shape is a decode error).
+				// Only sections are descended into, never the inside of a property.
+				if prop, ok := fieldVal.Addr().Interface().(StagedConfigProp); ok {
+					valueBytes, err := json.Marshal(value)
+					if err != nil {
+						return nil, err
+					}
+
+					if err := prop.UnmarshalJSONStaged(valueBytes); err != nil {
+						return nil, err
+					}
+
+					stagedProps = append(stagedProps, prop)
+				} else if nestedUpdates, ok := value.(map[string]any); ok {
+					// If the value is a map, it's a nested update
 					nestedStaged, err := setPropsFromMapRecursive(fieldVal.Addr(), nestedUpdates)
 					if err != nil {
 						return nil, err
 					}
 					stagedProps = append(stagedProps, nestedStaged...)
-					break
-				}
-
-				// Check if it's a ConfigProp
-				if fieldVal.CanAddr() {
-					fieldAddr := fieldVal.Addr()
-					if prop, ok := fieldAddr.Interface().(StagedConfigProp); ok {
-						valueBytes, err := json.Marshal(value)
-						if err != nil {
-							return nil, err
-						}
-
-						if err := prop.UnmarshalJSONStaged(valueBytes); err != nil {
-							return nil, err
-						}
-
-						stagedProps = append(stagedProps, prop)
-						break
-					}
 				}
 			}
 			break
